@@ -70,6 +70,7 @@ def run(repo, rep, tier):
     # -- decided by _names (name-key-injective): either the blocks carry an
     # ordinal of their own in the variable name, or the key function itself
     # has to be injective (the C09 obligation, borrowed there)
+    L.option_defaults_rule(repo, rep, "R10.1", ("implicit_i18n_translate",))
     L.state_rule(repo, rep)
 
 
